@@ -1,4 +1,4 @@
 #define LOOP_array_plus_grid__requestChunk_1 \
     __CPROVER_assigns(curr, g_starts, self->huge_holes, self->grid_bottom, self->grid_top, self->grid_current, __CPROVER_object_upto(self->medium_hole_list, sizeof(self->medium_hole_list)), __CPROVER_object_whole(self->data)) \
     __CPROVER_loop_invariant(curr >= 0 && HOLE_OR_0(self, curr) && self->data[0] == 0) \
-    __CPROVER_loop_invariant(self->huge_holes >= 0 && (self->huge_holes == 0 || (HOLE_OK(self, self->huge_holes) && TAGSIZE(self, self->huge_holes) > self->max_request)))
+    __CPROVER_loop_invariant(self->huge_holes >= 0 && (self->huge_holes == 0 || (HOLE_OK(self, self->huge_holes) && TAGSIZE(self, self->huge_holes) >= LargeHoleSize && TAGSIZE(self, self->huge_holes) > self->max_request)))
